@@ -47,10 +47,7 @@ def search(rng, tier, disagreeing):
 
 
 def classify(body, impl, verdict):
-    toks = body.split(" ; ", 1)[1].split(" ")
-    cfgs = [t[2:].split(",") for t in toks if t.startswith("B:")]
-    naming = cfgs[0][7].split(".")
-    direct_ts = naming[0] == "tsd" or (naming[0] == "cu" and naming[1] == "~")
+    """no recorded finding is left for this property: every failure is reported"""
     return None
 
 
